@@ -17,7 +17,8 @@ PROPS["C10"] = dict(
           "GetBroadcasts(overhead 0-3, limit 0-300 or unbounded) / Prune / Reset / NumQueued / change of NumNodes, "
           "RetransmitMult 0-4, started from a zero-value queue, compared after every step with a list-based reference "
           "model (NumQueued, Finished() count per broadcast, exact selection by pointer identity, size budget, one per name) "
-          "and drained at the end; non-trivial = an enqueue after some item was re-inserted below its limit, or equal-length "
+          "and drained at the end; one broadcast in six carries a completion callback that, while it is still running, lets another goroutine call QueueBroadcast(same name) / Reset / Prune "
+          "(2 ms are given): the queue must behave as if that call came after the operation that ran the callback; non-trivial = an enqueue after some item was re-inserted below its limit, or equal-length "
           "items coexisting, or Prune/Reset called; distinct = distinct operation sequences (hash of the plan)"),
     tests=[
         dict(name="model", run="^TestQueueModel$",
@@ -25,7 +26,8 @@ PROPS["C10"] = dict(
              thorough=dict(shards=16, checks=400000, timeout=1800)),
     ],
     required_labels=dict(both=["TestQueueModel/enqueue-after-reinsert", "TestQueueModel/equal-length-coexist",
-                               "TestQueueModel/prune", "TestQueueModel/reset", "TestQueueModel/emptied-by-get"]),
+                               "TestQueueModel/prune", "TestQueueModel/reset", "TestQueueModel/emptied-by-get",
+                               "TestQueueModel/hook:requeue", "TestQueueModel/hook:reset", "TestQueueModel/hook:prune"]),
     assumptions=COMMON_ASSUMPTIONS + [
         "identity of returned messages is established by the backing-array pointer of Message() (the queue returns the slices it was given)",
         "a zero-length message whose overhead exactly exhausts the limit may or may not be returned (both readings of 'fits' accepted)",
@@ -301,11 +303,15 @@ PROPS["C12"] = dict(
           "Oracle: B's delegate receives exactly the multiset of user messages A was given, both sides' MergeRemoteState get the other's LocalState bytes, "
           "NotifyPingComplete carries A's ack payload, B's view of A has A's name, metadata and version vector; and the independent wire mirror decodes every "
           "packet and every stream write on the wire and recovers the same user payloads and user states. non-trivial = payload >= 1 byte in a cell with at "
-          "least two of encryption/compression/label active; distinct = distinct plans"),
+          "least two of encryption/compression/label active; distinct = distinct plans. Socket variant: two real nodes on memberlist's own NetTransport (loopback; label of 0-255 bytes, "
+          "key, compression, protocol version), 1-8 goroutines per case sending 2-40 unique user messages in both directions at the same time (best effort 2-60000 bytes, reliable 2-300000): "
+          "everything delivered was sent to that node byte for byte, nothing is delivered more often than sent, reliable messages exactly once, best-effort ones after at most 3 resends; also under the race detector"),
     tests=[
         dict(name="rt", run="^TestRoundTrip$",
              quick=dict(shards=16, checks=100, timeout=600),
              thorough=dict(shards=16, checks=3000, timeout=3400)),
+        dict(name="sock", run="^TestRoundTripSockets$", quick=dict(shards=2, checks=150, timeout=600), thorough=dict(shards=4, checks=6000, timeout=3400)),
+        dict(name="sock-race", run="^TestRoundTripSockets$", race=True, quick=dict(shards=1, checks=40, timeout=900), thorough=dict(shards=2, checks=1500, timeout=3400)),
         dict(name="seedcorpus", kind="plain", run="^FuzzRoundTrip$", quick=dict(shards=1, timeout=300)),
         dict(name="fuzz", kind="fuzz", run="^FuzzRoundTrip$", thorough=dict(fuzztime="240s", timeout=600)),
     ],
@@ -313,6 +319,7 @@ PROPS["C12"] = dict(
     assumptions=CLUSTER_ASSUMPTIONS + [
         "metadata and gossip payloads are kept within the packet budget of the drawn UDPBufferSize/label/encryption (a message that cannot fit a packet is never gossiped)",
         "an empty SendReliable payload may be delivered zero or one time (the stream path does not surface empty messages)",
+        "socket variant: loopback UDP may drop a datagram under buffer pressure, so a best-effort message counts as lost only after 4 attempts; bursts stay far below the receive buffer",
     ],
 )
 
@@ -357,19 +364,24 @@ PROPS["C13"] = dict(
           "within its TCP timeout, afterwards the node answers a state dump and a ping, records/events/delegate payloads change only if some prefix-tolerant "
           "parse of a plaintext candidate names them, over-cap declarations consume at most the declaration plus two read buffers and deliver nothing, the cap "
           "on concurrent push/pulls and the queue depth hold; at the end the bubble exits (no goroutine left). non-trivial = input that gets past the outermost "
-          "layer (label and, when configured, decryption); thorough adds native fuzzing with the genuine corpus as seeds"),
+          "layer (label and, when configured, decryption); thorough adds native fuzzing with the genuine corpus as seeds. Socket variant (memberlist's own NetTransport on loopback, "
+          "a second real node as witness): datagrams of 0/1/2/.../65507 bytes and connections that close at once, stall after a fragment or a partial label header, or send up to 1 MiB of garbage; "
+          "every stalled connection is closed by the node within TCPTimeout, the stream listener serves the witness while they are open, both listeners serve afterwards, no handler goroutine, "
+          "no foreign member, and nothing is left after Shutdown"),
     tests=[
         dict(name="hostile", run="^TestHostileInputs$", quick=dict(shards=10, checks=500, timeout=600), thorough=dict(shards=10, checks=25000, timeout=3400)),
         dict(name="sweep", kind="plain", run="^TestSingleByteSweep$", quick=dict(shards=4, timeout=600), thorough=dict(shards=8, timeout=3400)),
         dict(name="caps", run="^(TestOversizeDeclarations|TestConcurrentPushPullCap|TestHandoffQueueDepth|TestReplayFlood)$", quick=dict(shards=2, checks=150, timeout=600), thorough=dict(shards=4, checks=2000, timeout=3000)),
         dict(name="bomb", kind="plain", run="^(TestDecompressionBomb|TestKnownMsgpackStreamAlloc)$", quick=dict(shards=1, timeout=600)),
         dict(name="seedcorpus", kind="plain", run="^Fuzz", quick=dict(shards=1, timeout=600)),
+        dict(name="sock", run="^TestHostileSockets$", quick=dict(shards=2, checks=40, timeout=600), thorough=dict(shards=4, checks=1500, timeout=3400)),
         dict(name="fuzzpkt", kind="fuzz", run="^FuzzPacket$", thorough=dict(fuzztime="300s", timeout=700)),
         dict(name="fuzzstream", kind="fuzz", run="^FuzzStream$", thorough=dict(fuzztime="300s", timeout=700)),
     ],
     assumptions=PUPPET_ASSUMPTIONS + [
         "'refused before the data is buffered' is observed as bytes consumed from the stream, not as allocations",
         "a panic on a memberlist goroutine kills the test binary; the driver attributes it to the journalled case",
+        "socket variant: wall-clock; liveness questions are repeated (4 reliable messages, 6 pings) before a listener is declared dead, closure of a stalled connection is awaited for TCPTimeout + 10 s",
     ],
 )
 
@@ -488,14 +500,19 @@ PROPS["C20"] = dict(
           "virtual time only, two overlapping Leave calls. Oracle: no call panics, every call returns within its documented wait (Leave within timeout + 1 ms), "
           "repeated Shutdown returns nil, after Shutdown returns no packet, stream write or dial of the node reaches the network and attempts on the closed "
           "transport stop within one awareness-scaled probe interval, and the bubble exits (no goroutine of the node left) after that drain period; the subject may also know a frozen member (swallows packets, accepts streams, never answers) and run with TCPTimeout 400 ms or 10 s: every TCP fallback ping stream is closed within two probe intervals of its dial, and a stream exchange the node dialled is gone one scaled probe interval after Shutdown (with TCPTimeout 10 s that is the listed finding C20-stream-outlives-shutdown: counted, must be gone by dial + TCPTimeout). The "
-          "real-time variant releases 2-6 calls (incl. Leave || Leave, Shutdown || Shutdown, UpdateNode || UpdateNode) truly concurrently with 40 ms probe intervals on a transport whose Shutdown takes 15 ms (every return of Shutdown must find the transport closed); both variants also run under the race detector. non-trivial = a concurrent group of >= 2 calls or a call at the left-and-reaped stage"),
+          "real-time variant releases 2-6 calls (incl. Leave || Leave, Shutdown || Shutdown, UpdateNode || UpdateNode) truly concurrently with 40 ms probe intervals on a transport whose Shutdown takes 15 ms (every return of Shutdown must find the transport closed); both variants also run under the race detector. The socket variant runs the same kind of call groups against memberlist's own NetTransport on loopback (created by Create, handed over, or hidden behind the plain Transport interface; keyring / SecretKey / label): every Shutdown that returned finds listener and UDP socket closed, the same port can be reused at once, a Create that gets only one of its two ports leaves nothing behind, and 10 s after all nodes were shut down no goroutine is inside memberlist. non-trivial = a concurrent group of >= 2 calls or a call at the left-and-reaped stage"),
     tests=[
         dict(name="life", run="^TestLifecycle$", quick=dict(shards=10, checks=120, timeout=600), thorough=dict(shards=10, checks=5000, timeout=3400)),
         dict(name="life-race", run="^TestLifecycle$", race=True, quick=dict(shards=3, checks=25, timeout=900), thorough=dict(shards=3, checks=800, timeout=3400)),
         dict(name="known", kind="plain", run="^TestKnownStreamOutlivesShutdown$", quick=dict(shards=1, timeout=300)),
         dict(name="rt-race", run="^TestLifecycleRealtime$", race=True, quick=dict(shards=3, checks=40, timeout=900), thorough=dict(shards=3, checks=1500, timeout=3400)),
+        dict(name="sock", run="^TestLifecycleSockets$", quick=dict(shards=2, checks=60, timeout=600), thorough=dict(shards=4, checks=3000, timeout=3400)),
+        dict(name="sock-race", run="^TestLifecycleSockets$", race=True, quick=dict(shards=1, checks=25, timeout=900), thorough=dict(shards=2, checks=800, timeout=3400)),
     ],
+    required_labels=dict(both=["TestLifecycleSockets/sock-shutdown", "TestLifecycleSockets/sock-restart", "TestLifecycleSockets/sock-halfbound-1",
+                               "TestLifecycleSockets/sock-mode-0", "TestLifecycleSockets/sock-mode-2"]),
     assumptions=CLUSTER_ASSUMPTIONS + [
+        "the socket variant (memberlist's own NetTransport on loopback) reads the kernel socket table and this process's descriptor table to decide whether a port is still held; leftover goroutines are looked for during 10 s of real time",
         "a group that does not return within 60 s of real time (each call is bounded by 0.2 s) is reported as a deadlock",
         "data races are reported by the Go race detector only on interleavings that occurred",
     ],
